@@ -174,6 +174,11 @@ func (s *setSubj[T]) GenOp(r *Rng, id int, c *Client) Op {
 	case "clearer":
 		w = []int{10, 3, 3}
 	}
+	if len(s.m) > 0 && len(s.m) <= 200 && r.P(1, 25) {
+		// the set's own Values() handed back to it: all of it to Add (nothing to do), all or all but one member
+		// to Remove
+		return Op{ID: id, N: r.PickS("AddOwn", "AddOwn", "RemoveOwn", "RemoveOwnTail"), A: []int{r.Intn(1000)}}
+	}
 	switch r.Weighted(w...) {
 	case 0:
 		return Op{ID: id, N: "Add", A: args()}
@@ -201,8 +206,13 @@ func (s *setSubj[T]) ModelApply(op Op) {
 				s.m = slices.Delete(slices.Clone(s.m), i, i+1)
 			}
 		}
-	case "Clear":
+	case "Clear", "RemoveOwn":
 		s.m = nil
+	case "AddOwn":
+	case "RemoveOwnTail": // (for a hash set Step has already reduced the model to the member the container kept)
+		if len(s.m) > 0 {
+			s.m = []T{s.m[op.A[0]%len(s.m)]}
+		}
 	case "Shrink":
 		if len(s.m) > op.A[0] {
 			s.m = slices.Clone(s.m[:op.A[0]])
@@ -258,6 +268,30 @@ func (s *setSubj[T]) Step(op Op, o *Oracle) {
 		s.afterCall(vs)
 	case "Clear":
 		s.s.Clear()
+	case "AddOwn", "RemoveOwn", "RemoveOwnTail":
+		// the slice Values() returned is handed straight back (the caller's data, like any other argument)
+		vs := ownArgs(s.s.Values())
+		if s.scribble {
+			s.lastArgs = slices.Clone(vs)
+		}
+		switch op.N {
+		case "AddOwn":
+			s.counted(o, "Add", len(vs), func() { s.s.Add(vs...) })
+		case "RemoveOwn":
+			s.counted(o, "Remove", len(vs), func() { s.s.Remove(vs...) })
+		default:
+			// all members but one: whichever Values() lists at a derived position (any order is legal for a hash set)
+			if len(vs) > 0 {
+				keep := vs[op.A[0]%len(vs)]
+				rest := slices.Clone(vs)
+				rest = slices.Delete(rest, op.A[0]%len(vs), op.A[0]%len(vs)+1)
+				s.counted(o, "Remove", len(rest), func() { s.s.Remove(rest...) })
+				if i := s.find(keep); i >= 0 && len(vs) == len(s.m) {
+					s.m = []T{s.m[i]}
+				}
+			}
+		}
+		s.afterCall(vs)
 	case "Shrink": // one bulk Remove of all members but op.A[0] of them (taken from the model: no read of the container)
 		if len(s.m) > op.A[0] {
 			s.s.Remove(slices.Clone(s.m[op.A[0]:])...)
@@ -344,6 +378,21 @@ func (s *setSubj[T]) check(o *Oracle) {
 		}
 		if got := s.s.Contains(q...); got != want {
 			o.Fail(tag, "contains-multi", "after %s: Contains(%s)=%v, want %v", o.cur, joinS(q, s.d.Str), got, want)
+		}
+		if len(vals) == len(s.m) && len(vals) <= 300 && derive(o.cur.ID, 7, 4) == 0 {
+			// the set's own Values() handed back: all members; the same list with one stranger among them
+			if !s.s.Contains(vals...) {
+				o.Fail(tag, "contains-multi", "after %s: Contains(Values()...) is false; Values() = %s", o.cur, joinS(vals, s.d.Str))
+			}
+			for _, x := range s.d.Probes {
+				if s.find(x) < 0 {
+					mixed := slices.Insert(slices.Clone(vals), derive(o.cur.ID, 8, len(vals)+1), x)
+					if s.s.Contains(mixed...) {
+						o.Fail(tag, "contains-multi", "after %s: Contains(%s) is true, %s is no member", o.cur, joinS(mixed, s.d.Str), s.d.Str(x))
+					}
+					break
+				}
+			}
 		}
 		if got := s.s.Size(); got != len(s.m) {
 			o.Fail(tag, "size", "after %s: Size()=%d, distinct members %d", o.cur, got, len(s.m))
